@@ -90,7 +90,7 @@ def jsonable(x):
 
 
 def write_replay(pid, kernel, payload, detail):
-    d = os.path.join(VERIF, "replays")
+    d = os.environ.get("VERIF_REPLAY_DIR") or os.path.join(VERIF, "replays")
     os.makedirs(d, exist_ok=True)
     body = dict(property=pid, kernel=kernel, payload=jsonable(payload), detail=detail)
     s = json.dumps(body, sort_keys=True, indent=1)
@@ -250,7 +250,8 @@ def finish(pid, tier, seed, meta, results, t0, extra_cov=None):
                                  "cex", "known", "errors", "roots", "samples", "tags", "timed_out")})
         violations += r.get("violations", [])
         known_hits += r.get("known_hits", [])
-        unrepro += r.get("unreproduced", [])
+        # a recorded finding whose model does not replay is just not reported
+        unrepro += [u for u in r.get("unreproduced", []) if u.get("kind") != "known"]
         for k, v in r.get("reach", r.get("tags", {})).items():
             reach[k] = reach.get(k, 0) + v
         per_job.append(dict(job=r.get("job"), paths=r.get("paths", 0), obligations=r.get("obligations", 0),
@@ -341,8 +342,9 @@ def finish(pid, tier, seed, meta, results, t0, extra_cov=None):
     ev = dict(property_id=pid, tier=tier, seed=int(seed), level=meta.get("level", "other"),
               coverage=cov, assumptions=meta.get("assumptions", []), wall_s=round(wall, 2),
               violations=len(vio_files))
-    os.makedirs(os.path.join(VERIF, "evidence"), exist_ok=True)
-    with open(os.path.join(VERIF, "evidence", "%s.json" % pid), "w") as f:
+    evdir = os.environ.get("VERIF_EVIDENCE_DIR") or os.path.join(VERIF, "evidence")   # override: runs against scratch copies of the repo
+    os.makedirs(evdir, exist_ok=True)
+    with open(os.path.join(evdir, "%s.json" % pid), "w") as f:
         json.dump(jsonable(ev), f, indent=1, sort_keys=True)
     print("%s tier=%s paths=%d obligations=%d unsat=%d sat=%d unknown=%d known-findings=%d wall=%.1fs exit=%d" % (
         pid, tier, cov["evaluations"], cov["obligations"], cov["discharged"], cov["sat"],
